@@ -3,6 +3,7 @@ package main
 // Generator of well-formed bundles W (and the wider class W+) for the Flatten properties C01–C10.
 
 import (
+	"github.com/go-openapi/swag"
 	"fmt"
 	"path"
 	"sort"
@@ -580,6 +581,39 @@ func (b *bgen) injectScenario(name string, rootDefs, paths M, aux map[string]M, 
 			paths["/scn/store"] = M{"get": resp(M{"$ref": "#/definitions/petStore"})}
 		}
 		g.hit("scenario:prefix-names")
+	case "generated-name-clash":
+		// existing definitions named like the names full flattening generates for inline complex schemas nested in a
+		// definition (object / tuple / allOf, one to three levels deep)
+		holder := g.pick([]string{"holderG", "pet", "order"})
+		mid, leaf := g.pick([]string{"owner", "part", "a b"}), g.pick([]string{"address", "items", "tag"})
+		var inner M
+		switch g.n(3) {
+		case 0:
+			inner = M{"type": "object", "properties": M{"street": M{"type": "string"}}}
+		case 1:
+			inner = M{"type": "array", "items": []any{M{"type": "string"}, M{"type": "integer"}}}
+		default:
+			inner = M{"allOf": []any{M{"type": "object", "properties": M{"z": M{"type": "string"}}}}}
+		}
+		deep := g.p(0.5)
+		if deep {
+			rootDefs[holder] = M{"type": "object", "properties": M{mid: M{"type": "object", "properties": M{leaf: inner, "n": M{"type": "integer"}}}}}
+		} else {
+			rootDefs[holder] = M{"type": "object", "properties": M{mid: inner, "n": M{"type": "integer"}}}
+		}
+		// the names the namer derives: ToJSONName("<holder> <mid>[ <leaf>]")
+		clash := swag.ToJSONName(holder + " " + mid)
+		if deep && g.p(0.6) {
+			clash = swag.ToJSONName(holder + " " + mid + " " + leaf)
+		}
+		if g.p(0.3) {
+			clash = strings.ToUpper(clash[:1]) + clash[1:]
+		}
+		if _, exists := rootDefs[clash]; !exists {
+			rootDefs[clash] = M{"type": "object", "properties": M{"existing": M{"type": "boolean"}}}
+		}
+		paths["/scn/clash"] = M{"get": resp(M{"$ref": "#/definitions/" + jsonPtrEscape(holder)}), "put": resp(M{"$ref": "#/definitions/" + jsonPtrEscape(clash)})}
+		g.hit("scenario:generated-name-clash")
 	case "ref-siblings":
 		// a $ref with schema-bearing siblings (kept by the loader): the only $ref to a definition sits under such a sibling
 		tgt, only := g.pick([]string{"tagS", "tag s", "t/s"}), g.pick([]string{"extraOnly", "extra only", "e~x"})
